@@ -51,7 +51,12 @@ Definition ack_unpack (data : bytes) : res AckPdu :=
   do p <- ack_empty;
   do f <- fdir_unpack data;
   do _ <- hdr_verify_length_and_checksum (fd_hdr f) data;
+  (* data = data[:end_of_params]: the octets of this PDU in front of its CRC trailer *)
+  let end_of_params :=
+    if cf_crc (h_conf (fd_hdr f)) =? CRC_WITH_CRC then fdir_packet_len f - 2 else fdir_packet_len f in
+  let data := slice_to data end_of_params in
   let current_idx := fdir_header_len f in
+  if current_idx + 2 >? len data then Err ETooShort else
   do b0 <- py_get data current_idx;
   let code := Z.shiftr (Z.land b0 240) 4 in
   let subtype := Z.land b0 15 in
